@@ -20,7 +20,8 @@ From Mpc Require Import Gen.Thresholds Lang.Mini Lang.Ssa Lang.CircGen
   Builders.IndexProof Builders.BitwiseProof Builders.Hamming Builders.HammingProof
   Builders.KsProof Builders.WallaceProof Builders.StructWallace
   Builders.StructAdder Builders.StructArith Builders.StructHamming Builders.StructMult Builders.StructCmp
-  Builders.StructIndex Builders.StructDiv Builders.DivProof Lang.CircGenDivProof.
+  Builders.StructIndex Builders.StructDiv Builders.DivProof Lang.CircGenDivProof
+  Lang.CircEmbed Lang.CircEmbedProof.
 Import ListNotations.
 Open Scope N_scope.
 
@@ -846,6 +847,61 @@ Proof.
   intros Hm Hz. destruct t; [apply okm_new_multiplier_gmw; exact Hz | apply okm_new_multiplier_yao_shipped; assumption].
 Qed.
 
+(* ------------------------------------------------ circ: argument bits *)
+Lemma to_N_bits_val l : to_N l = bits_val l.
+Proof. induction l as [|b l IH]; [reflexivity|]. cbn [to_N bits_val]. rewrite IH. reflexivity. Qed.
+
+Lemma nbits_length w v : length (nbits w v) = w.
+Proof. unfold nbits. rewrite map_length, seq_length. reflexivity. Qed.
+
+Lemma nbits_nth w v k : (k < w)%nat -> nth k (nbits w v) false = N.testbit v (N.of_nat k).
+Proof.
+  intros H. unfold nbits.
+  rewrite (nth_indep _ false (N.testbit v (N.of_nat 0))) by (rewrite map_length, seq_length; exact H).
+  rewrite (map_nth (fun i => N.testbit v (N.of_nat i)) (seq 0 w) 0%nat k), seq_nth by exact H. reflexivity.
+Qed.
+
+(* the wires of an argument followed by zeros = the argument's value on n bits *)
+Lemma nbits_valN (e : Emit.env) (w : list wire) n : (length w <= n)%nat ->
+  nbits n (valN e w) = map e w ++ repeat false (n - length w).
+Proof.
+  intros L. apply (nth_ext _ _ false false).
+  - rewrite nbits_length, app_length, map_length, repeat_length. lia.
+  - rewrite nbits_length. intros k Hk. rewrite nbits_nth by exact Hk.
+    rewrite (valN_testbit e w 0). destruct (Nat.ltb k (length w)) eqn:E.
+    + apply Nat.ltb_lt in E. rewrite app_nth1 by (rewrite map_length; exact E).
+      rewrite (nth_indep _ false (e 0)) by (rewrite map_length; exact E).
+      rewrite map_nth. reflexivity.
+    + apply Nat.ltb_ge in E. rewrite app_nth2 by (rewrite map_length; exact E).
+      symmetry. apply nth_repeat.
+Qed.
+
+Lemma args_fit_F2 : forall args ins (ws : list (list wire)), args_fit args ins = true ->
+  Forall2 (fun a w => length w = opnd_bits a) args ws ->
+  Forall2 (fun w n => (length w <= n)%nat) ws ins.
+Proof.
+  induction args as [|a ar IH]; intros ins ws AF F; inversion F; subst.
+  - destruct ins; [constructor|discriminate AF].
+  - destruct ins as [|n nr]; [discriminate AF|]. cbn [args_fit] in AF.
+    apply andb_true_iff in AF. destruct AF as [A1 A2]. apply Nat.leb_le in A1.
+    constructor; [lia|]. apply IH; assumption.
+Qed.
+
+Lemma flat_bits_circ_input (e : Emit.env) vs : forall args ins (ws : list (list wire)),
+  args_fit args ins = true ->
+  Forall2 (fun a w => length w = opnd_bits a) args ws ->
+  Forall2 (fun a w => valN e w = opnd_val vs a) args ws ->
+  flat_bits e ws ins = circ_input vs args ins.
+Proof.
+  induction args as [|a ar IH]; intros ins ws AF F V; inversion F; subst; inversion V; subst.
+  - reflexivity.
+  - destruct ins as [|n nr]; [discriminate AF|]. cbn [args_fit] in AF.
+    apply andb_true_iff in AF. destruct AF as [A1 A2]. apply Nat.leb_le in A1.
+    cbn [flat_bits circ_input hd tl]. f_equal; [|apply IH; assumption].
+    match goal with H : valN e _ = opnd_val vs a |- _ => rewrite <- H end.
+    symmetry. apply nbits_valN. lia.
+Qed.
+
 Section Instr.
 Variable tg : bool.
 Variable thr : nat.
@@ -869,15 +925,39 @@ Ltac args_n WF :=
 Lemma max_pow_le a b : (a <= b)%nat -> pow2 a <= pow2 b.
 Proof. intros H. unfold pow2. apply N.pow_le_mono_r; lia. Qed.
 
+Lemma okm_cg_body_circ ins c args out aux ws :
+  cg_wf_instr (mkInstr (Ocirc ins c) args out aux) = true ->
+  Forall2 (fun a w => length w = opnd_bits a) args ws ->
+  okm tg (cg_body multiplierArrayTresholds thr (mkInstr (Ocirc ins c) args out aux) ws)
+      (fun o e => Forall2 (fun a w => valN e w = opnd_val vs a) args ws ->
+                  post (mkInstr (Ocirc ins c) args out aux) o e).
+Proof.
+  intros WF FR. unfold cg_wf_instr in WF. cbn [i_op i_args i_out] in WF.
+  apply andb_true_iff in WF. destruct WF as [WF OK].
+  apply andb_true_iff in WF. destruct WF as [WF OB]. apply Nat.eqb_eq in OB.
+  apply andb_true_iff in WF. destruct WF as [AF TI]. apply Nat.eqb_eq in TI.
+  unfold cg_body, post. cbn [i_op i_out i_args].
+  eapply okm_weaken;
+    [apply okm_of_okp, (okp_embed_circ tg ins (s_bits out) c ws OK (args_fit_F2 _ _ _ AF FR) TI OB)|].
+  cbv beta. intros o e [Lo Ho] HF. split; [exact Lo|].
+  unfold eval_instr. cbn [i_op i_args].
+  assert (EQ : bits_val (Circuit.eval_plain c (circ_input vs args ins)) = valN e o).
+  { unfold valN. rewrite Ho, (flat_bits_circ_input e vs args ins ws AF FR HF). symmetry. apply to_N_bits_val. }
+  rewrite EQ. symmetry. apply norm_small. rewrite pow2_eq, <- Lo. apply valN_lt.
+Qed.
+
 Lemma okm_cg_body i ws :
   cg_wf_instr i = true -> ok_tg tg i = true ->
   Forall2 (fun a w => length w = opnd_bits a) (i_args i) ws ->
   okm tg (cg_body multiplierArrayTresholds thr i ws)
       (fun o e => Forall2 (fun a w => valN e w = opnd_val vs a) (i_args i) ws -> post i o e).
 Proof.
-  intros WF HD FR. destruct i as [op args out aux]. unfold cg_wf_instr in WF. unfold ok_tg in HD. unfold post, cg_body.
+  intros WF HD FR. destruct i as [op args out aux].
+  destruct (match op with Ocirc _ _ => true | _ => false end) eqn:IC.
+  { destruct op; try discriminate IC. apply okm_cg_body_circ; assumption. }
+  unfold cg_wf_instr in WF. unfold ok_tg in HD. unfold post, cg_body.
   cbn [i_op i_args i_out i_aux] in *.
-  destruct op; try discriminate WF; split_wf WF; args_n WF; inv_F; natb;
+  destruct op; try discriminate WF; try discriminate IC; clear IC; split_wf WF; args_n WF; inv_F; natb;
     cbn [nth arg opnd_const] in *; cbv beta zeta;
     repeat match goal with H : length ?w = opnd_bits _ |- _ => is_var w; revert H end;
     intros.
@@ -1400,13 +1480,38 @@ Proof.
   rewrite Forall_forall in F. apply F, H.
 Qed.
 
+Lemma cg_body_circ_s thr ins c args out aux ws s : wfst s ->
+  cg_wf_instr (mkInstr (Ocirc ins c) args out aux) = true ->
+  Forall2 (fun a w => Forall (defd s) w /\ length w = opnd_bits a) args ws ->
+  oks (cg_body multiplierArrayTresholds thr (mkInstr (Ocirc ins c) args out aux) ws) s
+      (fun o s' => adv s s' /\ Forall (defd s') o).
+Proof.
+  intros W WF FR. unfold cg_wf_instr in WF. cbn [i_op i_args i_out] in WF.
+  apply andb_true_iff in WF. destruct WF as [WF OK].
+  apply andb_true_iff in WF. destruct WF as [WF OB]. apply Nat.eqb_eq in OB.
+  apply andb_true_iff in WF. destruct WF as [AF TI]. apply Nat.eqb_eq in TI.
+  unfold cg_body. cbn [i_op i_out i_args].
+  eapply oks_conseq; [apply (embed_circ_s ninp ins (s_bits out) c ws s W OK); [|exact TI|exact OB]|].
+  - assert (F1 : Forall2 (fun a w => length w = opnd_bits a) args ws).
+    { clear - FR. induction FR as [|a w l l' [_ H] _ IH]; constructor; auto. }
+    pose proof (args_fit_F2 _ _ _ AF F1) as F2.
+    assert (F3 : Forall (Forall (defd s)) ws).
+    { clear - FR. induction FR as [|a w l l' [H _] _ IH]; constructor; auto. }
+    clear - F2 F3. induction F2 as [|w n l l' H _ IH]; [constructor|].
+    inversion F3; subst. constructor; [split; assumption|apply IH; assumption].
+  - cbv beta. intros o s' _ [A F]. split; [exact A|exact F].
+Qed.
+
 Lemma cg_body_s tg thr i ws s : wfst s -> gmw s = tg -> cg_wf_instr i = true -> ok_tg tg i = true ->
   Forall2 (fun a w => Forall (defd s) w /\ length w = opnd_bits a) (i_args i) ws ->
   oks (cg_body multiplierArrayTresholds thr i ws) s (fun o s' => adv s s' /\ Forall (defd s') o).
 Proof.
-  intros W G WF HD FR. destruct i as [op args out aux]. unfold cg_wf_instr in WF. unfold ok_tg in HD. unfold cg_body.
+  intros W G WF HD FR. destruct i as [op args out aux].
+  destruct (match op with Ocirc _ _ => true | _ => false end) eqn:IC.
+  { destruct op; try discriminate IC. apply cg_body_circ_s; assumption. }
+  unfold cg_wf_instr in WF. unfold ok_tg in HD. unfold cg_body.
   cbn [i_op i_args i_out i_aux] in *.
-  destruct op; try discriminate WF; split_wf WF; args_n WF; inv_F; natb;
+  destruct op; try discriminate WF; try discriminate IC; clear IC; split_wf WF; args_n WF; inv_F; natb;
     cbn [nth arg opnd_const] in *; cbv beta zeta;
     repeat match goal with H : _ /\ _ |- _ => destruct H end.
   (* iadd uadd isub usub *)
